@@ -183,10 +183,17 @@ func randomBuild(pattern string, build func(string) (Cgroup, error)) (Cgroup, er
 	for {
 		name := prefix + nextRandom() + suffix
 		cg, err := build(name)
-		if err == nil && !cg.Existing() {
+		// under v1 the name may be taken under some controllers only (a group of another controller set):
+		// that is a collision too, what was created for this draw is removed again
+		partly := false
+		if v1, ok := cg.(*V1); ok && err == nil && !v1.existing && v1.shared {
+			partly = true
+			v1.Destroy()
+		}
+		if err == nil && !cg.Existing() && !partly {
 			return cg, nil
 		}
-		if errors.Is(err, os.ErrExist) || (cg != nil && cg.Existing()) {
+		if errors.Is(err, os.ErrExist) || (cg != nil && cg.Existing()) || partly {
 			if try++; try < 10000 {
 				continue
 			}
